@@ -4,8 +4,9 @@
   trie/encoding.go, ref/body/hashRoot = trie/hasher.go for an ARBITRARY hash function H).
 -/
 import Aqv.Lemmas.TrieBuild
+import Aqv.Lemmas.TrieProof
 namespace Aqv.Props.C10
-open Aqv Aqv.Trie
+open Aqv Aqv.Trie Aqv.Rlp
 
 /-! ### map refinement: lookups return exactly the live content -/
 
@@ -142,6 +143,126 @@ theorem root_eq_spec_run (H : Bytes → Bytes) (ops : List Op) (t : Node) (hr : 
       rw [hi.content] at hl
       exact ⟨(kb, v), (hc kb v).2 hl, rfl, rfl⟩
 
+/-! ### Merkle proofs -/
+
+/-- `decodeNode` inverts the hasher's node encoding on canonical nodes (children come back as embedded nodes,
+    32-byte hash references, nil or values) — the fact behind reloading from the node database and behind proofs.
+    `hH`: the hash function has 32-byte outputs; `SizeOk`: every RLP length fits the 8-byte length header. -/
+theorem decode_encode_node (H : Bytes → Bytes) (hH : ∀ x, (H x).length = 32) (n : Node) (hw : WF n) (hs : SizeOk H n) :
+    decodeNode ((enc (body H n)).length + 1) (enc (body H n)) = .ok (toP H n) := by
+  have := decodeNode_body H hH hw hs ((enc (body H n)).length + 1) [] (by omega)
+  rwa [List.append_nil] at this
+
+/-- **Completeness.** The node list `Prove` produces for ANY key (present or absent), stored under the hashes of its
+    elements, makes `VerifyProof` return exactly the content's answer — provided the hash function does not collide on
+    those finitely many elements (`cf`, decidable on instances). -/
+theorem prove_verify (H : Bytes → Bytes) (hH : ∀ x, (H x).length = 32) (t : Node) (hw : WF t) (hs : SizeOk H t)
+    (k : List Nib) (hk : Term k) (els : List Bytes) (hp : prove H t k = some els)
+    (cf : ∀ e ∈ els, ∀ e' ∈ els, H e = H e' → e = e') :
+    verify (dbOf H els) (verifyFuel k) (hashRoot H t) k =
+      match lookup t k with
+      | some v => .value v
+      | none => .absent := by
+  have := prove_verify_core H hH hw hs hk hp (dbOf H els) (dbOf_self H els cf) (verifyFuel k) (by simp [verifyFuel])
+  rw [this]
+  cases lookup t k <;> rfl
+
+/-- `Prove` itself never panics on a canonical trie and a terminated key. -/
+theorem prove_total (H : Bytes → Bytes) (t : Node) (hw : WFRoot t) (k : List Nib) (hk : Term k) :
+    ∃ els, prove H t k = some els := by
+  have hpath : ∀ (n : Node) (k : List Nib), Pos n k → ∃ l, provePath n k = some l := by
+    intro n
+    induction n with
+    | nil => intro k _; cases k <;> exact ⟨[], rfl⟩
+    | value w =>
+      intro k hp
+      rcases hp with ⟨_, h | h⟩ | ⟨rfl, _⟩
+      · cases h
+      · exact absurd h (not_wf_value w)
+      · exact ⟨[], rfl⟩
+    | short p c ih =>
+      intro k hp
+      rcases hp with ⟨hk, h | hw⟩ | ⟨_, h | ⟨w, h⟩⟩
+      · cases h
+      · obtain ⟨x, r, rfl⟩ := List.exists_cons_of_ne_nil (term_ne_nil hk)
+        simp only [provePath]
+        split
+        · next ht =>
+          obtain ⟨r', hr'⟩ := take_eq_iff.1 ht
+          have hpos : Pos c (List.drop p.length (x :: r)) := by
+            rw [hr']; simp only [List.drop_left]; rw [hr'] at hk; exact pos_short_child hw hk
+          obtain ⟨l, hl⟩ := ih _ hpos
+          exact ⟨_, by rw [hl]; rfl⟩
+        · exact ⟨_, rfl⟩
+      · cases h
+      · cases h
+    | full cs ih =>
+      intro k hp
+      rcases hp with ⟨hk, h | hw⟩ | ⟨_, h | ⟨w, h⟩⟩
+      · cases h
+      · obtain ⟨x, r, rfl⟩ := List.exists_cons_of_ne_nil (term_ne_nil hk)
+        simp only [provePath]
+        obtain ⟨l, hl⟩ := ih x r (pos_full_child hw hk)
+        exact ⟨_, by rw [hl]; rfl⟩
+      · cases h
+      · cases h
+  obtain ⟨l, hl⟩ := hpath t k (pos_of_wfroot hw hk)
+  exact ⟨proofElems H true l, by simp [prove, hl]⟩
+
+/-- **Soundness: no altered proof verifies to a different value.** For an ARBITRARY node list `p` (altered, truncated,
+    extended, forged), stored under the hashes of its elements: whenever `VerifyProof` against the root of `t` returns a
+    value it is the value `t` holds, whenever it reports absence the key is absent, and it never panics — under the explicit
+    hypothesis `cf` that no element of `p` collides under `H` with a genuine node of `t` without being that node's
+    encoding. With any amount of fuel (loop iterations). -/
+theorem verify_sound (H : Bytes → Bytes) (hH : ∀ x, (H x).length = 32) (t : Node) (hw : WF t) (hs : SizeOk H t)
+    (p : List Bytes) (cf : ∀ e ∈ p, ∀ m, Sub m t → H e = hashOf H m → e = enc (body H m))
+    (k : List Nib) (hk : Term k) (f : Nat) :
+    (∀ v, verify (dbOf H p) f (hashRoot H t) k = .value v → lookup t k = some v) ∧
+    (verify (dbOf H p) f (hashRoot H t) k = .absent → lookup t k = none) ∧
+    verify (dbOf H p) f (hashRoot H t) k ≠ .panic := by
+  apply verify_core H hH (dbOf H p) t _ f t k (Sub.refl t) hw hs hk
+  intro m hsub _ blob hd
+  obtain ⟨h1, h2⟩ := dbOf_some hd
+  exact cf blob h1 m hsub h2
+
+/-- **Binding** (the converse of `root_content_only`): two canonical tries with the same root hash are the same trie —
+    hence hold the same content — provided `H` does not collide between a node of one and a node of the other (`CFp`,
+    explicit). Together: the root determines and is determined by the content. -/
+theorem root_binding (H : Bytes → Bytes) (hH : ∀ x, (H x).length = 32) (t₁ t₂ : Node) (h₁ : WF t₁) (h₂ : WF t₂)
+    (s₁ : SizeOk H t₁) (s₂ : SizeOk H t₂) (cf : CFp H t₁ t₂) (h : hashRoot H t₁ = hashRoot H t₂) :
+    t₁ = t₂ ∧ ∀ k, lookup t₁ k = lookup t₂ k := by
+  have := root_binding_core H hH h₁ h₂ s₁ s₂ cf h
+  exact ⟨this, fun k => by rw [this]⟩
+
+/-! ### reopening from a committed root (cache eviction / reload from the node database) -/
+
+/-- A trie reopened from its committed root reproduces the trie: resolving every hash reference from the root hash
+    through a node database that holds each node of the committed trie under its hash (`hdb`: what `Commit` writes)
+    rebuilds exactly `t` — hence the same content, iteration and root. (`∃ f₀`: enough resolution steps.) -/
+theorem commit_reopen (H : Bytes → Bytes) (hH : ∀ x, (H x).length = 32) (t : Node) (hw : WF t) (hs : SizeOk H t)
+    (db : Bytes → Option Bytes) (hdb : ∀ m, Sub m t → IsSF m → db (hashOf H m) = some (enc (body H m))) :
+    ∃ f₀, ∀ f, f₀ ≤ f → loadP db f (.hash (hashRoot H t)) = some t := by
+  obtain ⟨f₀, h₀⟩ := loadP_refP H hH db t (Or.inr (Or.inr hw)) hs hdb
+  refine ⟨f₀ + 1, fun f hf => ?_⟩
+  obtain ⟨g, rfl⟩ : ∃ g, f = g + 1 := ⟨f - 1, by omega⟩
+  have hdec := decodeNode_body H hH hw hs ((enc (body H t)).length + 1) [] (by omega)
+  rw [List.append_nil] at hdec
+  have hroot : db (hashRoot H t) = some (enc (body H t)) := hdb t (Sub.refl t) (wf_isSF hw)
+  simp only [loadP, hroot, hdec]
+  exact (h₀ g (by omega)).2 (wf_isSF hw)
+
+/-- A lookup that starts from nothing but the root hash and such a node database — resolve, decode, descend, as a
+    reopened (fully unloaded) trie does on `TryGet` — returns exactly the content. -/
+theorem reopen_get (H : Bytes → Bytes) (hH : ∀ x, (H x).length = 32) (t : Node) (hw : WF t) (hs : SizeOk H t)
+    (db : Bytes → Option Bytes) (hdb : ∀ m, Sub m t → IsSF m → db (hashOf H m) = some (enc (body H m)))
+    (k : List Nib) (hk : Term k) :
+    verify db (verifyFuel k) (hashRoot H t) k =
+      match lookup t k with
+      | some v => .value v
+      | none => .absent := by
+  rw [reopen_get_core H hH hw hs db hdb hk (verifyFuel k) (by simp [verifyFuel])]
+  cases lookup t k <;> rfl
+
 /-! ### key encodings -/
 
 theorem keybytes_hex_roundtrip (s : Bytes) : hexToKeybytes (keybytesToHex s) = some s := keybytes_hex_roundtrip' s
@@ -172,6 +293,56 @@ example : compactToHex (hexToCompact [1, 2, 3, T]) = some [1, 2, 3, T] := by dec
 example : hexToCompact [1, 2, 3, T] = [0x31, 0x23] := by decide
 example : mptRoot (fun b => b) [(keybytesToHex [0x61], [1]), (keybytesToHex [0x61, 0x62], [2])] =
     hashRoot (fun b => b) ((tryUpdate ((tryUpdate .nil [0x61, 0x62] [2]).getD .nil) [0x61] [1]).getD .nil) := by decide
+-- Merkle proofs, with a toy 32-byte "hash" (first 32 bytes, zero padded) so that everything is decidable
+private def toyH (b : Bytes) : Bytes := (b ++ List.replicate 32 0).take 32
+example : ∀ x, (toyH x).length = 32 := by intro x; simp [toyH]
+private def leafT : Node := .short (keybytesToHex [0x61]) (.value [7, 7])
+example : WF leafT := WF.leaf _ _ (term_keybytesToHex _) (by decide)
+example : SizeOk toyH leafT := ⟨by decide, trivial⟩
+example : prove toyH leafT (keybytesToHex [0x61]) = some [[0xc6, 0x82, 0x20, 0x61, 0x82, 7, 7]] := by decide
+example : verify (dbOf toyH [[0xc6, 0x82, 0x20, 0x61, 0x82, 7, 7]]) 5 (hashRoot toyH leafT) (keybytesToHex [0x61]) =
+    .value [7, 7] := by decide
+example : verify (dbOf toyH [[0xc6, 0x82, 0x20, 0x61, 0x82, 7, 7]]) 5 (hashRoot toyH leafT) (keybytesToHex [0x62]) =
+    .absent := by decide
+-- an altered element is simply not found under the root hash
+example : verify (dbOf toyH [[0xc6, 0x82, 0x20, 0x61, 0x82, 7, 8]]) 5 (hashRoot toyH leafT) (keybytesToHex [0x61]) =
+    .err := by decide
+-- the collision-freedom hypothesis of `verify_sound` is satisfiable (here: the genuine proof against a one-leaf trie)
+example : ∀ e ∈ [[0xc6, 0x82, 0x20, 0x61, 0x82, (7 : UInt8), 7]], ∀ m, Sub m leafT → toyH e = hashOf toyH m →
+    e = enc (body toyH m) := by
+  intro e he m hsub hh
+  simp only [List.mem_singleton] at he
+  subst he
+  cases hsub with
+  | refl => decide
+  | short _ h =>
+    cases h with
+    | refl => exact absurd hh (by decide)
+-- `CFp` is satisfiable: the one-leaf trie against itself
+example : CFp toyH leafT leafT := by
+  intro m₁ m₂ s₁ s₂ w₁ w₂ _
+  have e₁ : m₁ = leafT := by
+    cases s₁ with
+    | refl => rfl
+    | short _ h => cases h with
+      | refl => exact absurd w₁ (not_wf_value _)
+  have e₂ : m₂ = leafT := by
+    cases s₂ with
+    | refl => rfl
+    | short _ h => cases h with
+      | refl => exact absurd w₂ (not_wf_value _)
+  rw [e₁, e₂]
+-- reopening: the node database of the one-leaf trie
+example : loadP (fun h => if h = hashRoot toyH leafT then some (enc (body toyH leafT)) else none) 3
+    (.hash (hashRoot toyH leafT)) = some leafT := by rfl
+-- hostile node blobs: decode error, and the modelled Go panic (empty compact key)
+private def outcome : Except DErr PNode → Nat
+  | .ok _ => 0
+  | .error .err => 1
+  | .error .panic => 2
+example : outcome (decodeNode 9 [0xc2, 0x80, 0x01]) = 2 := by decide
+example : outcome (decodeNode 9 [0xc3, 0x20, 0x01, 0x02]) = 1 := by decide
+example : outcome (decodeNode 9 [0xc2, 0x20, 0x01]) = 0 := by decide
 -- the panic outcomes of the workers are real (non-canonical positions): they are not totalised away
 example : get (.full emptyCs) [] = none := rfl
 example : insert (.short [1, 2] (.value [9])) [1] [7] = none := rfl
